@@ -97,6 +97,8 @@ func checkC20(p *Prog, r *Report) {
 	checkFieldLoopsFull(p, r, "C20")
 	r.rule("C20.not-found-panic: every explicit panic of Wrapper.getField / setField is reached only with an empty key, with a value whose reflect type was found to differ from the field's, or after the scan over all NumField() fields was exhausted (directly, or through a search helper whose not-found answer - a negative index tested as negative, or found == false - is given only after its own exhaustive scan)")
 	checkNotFoundPanics(p, r, "C20")
+	r.rule("C20.first-match: a field search of getField / setField that remembers the match in a loop-carried index stops at the first match (the index is part of the loop condition, or the assignment leaves the loop)")
+	checkFirstMatch(p, r, "C20")
 	checkC20IDAndPurity(p, r)
 	r.rule("C20.rel-types: Check compares a relationship field's reflect.Type.String() with exactly \"string\" and \"[]string\"")
 	checkRelFieldTypes(p, r, chk)
@@ -1525,4 +1527,128 @@ func reflectTypeKey(v ssa.Value) string {
 		return fmt.Sprintf("dyn:%p", c.Common().Args[0])
 	}
 	return ""
+}
+
+// checkFirstMatch implements C20.first-match: where Wrapper.getField / setField
+// (or a search helper of theirs) remember the index of the matching field in
+// a loop-carried variable instead of acting inside the loop, the search stops
+// at the first match - the variable is part of the loop condition, or the
+// assignment is followed by leaving the loop. Otherwise the last field with
+// that json tag is taken, and Get and Set can disagree on structs with a
+// shadowed name.
+func checkFirstMatch(p *Prog, r *Report, prefix string) {
+	for _, name := range []string{"(*Wrapper).getField", "(*Wrapper).setField"} {
+		f := p.Fn(name)
+		if f == nil {
+			continue
+		}
+		n := 0
+		for _, g := range append([]*ssa.Function{f}, stringHelpers(f)...) {
+			for _, hd := range g.Blocks {
+				loop := naturalLoop(hd)
+				if loop == nil {
+					continue
+				}
+				// a loop bounded by NumField()
+				bounded := false
+				var condVals []ssa.Value
+				var collect func(b *ssa.BasicBlock, depth int)
+				collect = func(b *ssa.BasicBlock, depth int) {
+					if depth > 3 || !loop[b] {
+						return
+					}
+					ifi, ok := b.Instrs[len(b.Instrs)-1].(*ssa.If)
+					if !ok {
+						return
+					}
+					exits := !loop[b.Succs[0]] || !loop[b.Succs[1]]
+					if !exits {
+						return
+					}
+					condVals = append(condVals, ifi.Cond)
+					if bo, ok := ifi.Cond.(*ssa.BinOp); ok {
+						if c, _ := callOf(bo.Y); c != nil && ((c.Common().StaticCallee() != nil && strings.HasSuffix(fullName(c.Common().StaticCallee()), ".NumField")) || (c.Common().IsInvoke() && c.Common().Method.Name() == "NumField")) {
+							bounded = true
+						}
+					}
+					for _, s := range b.Succs {
+						if loop[s] && s != hd {
+							collect(s, depth+1)
+						}
+					}
+				}
+				collect(hd, 0)
+				if !bounded {
+					continue
+				}
+				for _, ins := range hd.Instrs {
+					phi, ok := ins.(*ssa.Phi)
+					if !ok {
+						break
+					}
+					bt, isB := phi.Type().Underlying().(*types.Basic)
+					if !isB || bt.Info()&types.IsInteger == 0 {
+						continue
+					}
+					// assigned the loop counter inside the loop?
+					var assignedIn *ssa.BasicBlock
+					var find func(v ssa.Value, depth int)
+					seen := map[ssa.Value]bool{}
+					find = func(v ssa.Value, depth int) {
+						if depth > 6 || seen[v] {
+							return
+						}
+						seen[v] = true
+						if q, ok := v.(*ssa.Phi); ok && q != phi {
+							for k, e := range q.Edges {
+								if e != ssa.Value(phi) {
+									if st, sp := inductionOf(e, loop); st == 0 && sp == 1 {
+										assignedIn = q.Block().Preds[k]
+									}
+									find(e, depth+1)
+								}
+							}
+						}
+					}
+					isCounter := false
+					if st, sp := inductionOf(phi, loop); st == 0 && sp == 1 {
+						isCounter = true
+					}
+					if isCounter {
+						continue
+					}
+					for k, e := range phi.Edges {
+						if !loop[hd.Preds[k]] {
+							continue
+						}
+						if st, sp := inductionOf(e, loop); st == 0 && sp == 1 {
+							assignedIn = hd.Preds[k]
+						}
+						find(e, 0)
+					}
+					if assignedIn == nil {
+						continue
+					}
+					n++
+					// (a) the variable takes part in the loop's exit condition
+					inCond := false
+					for _, cv := range condVals {
+						if bo, ok := cv.(*ssa.BinOp); ok && (bo.X == ssa.Value(phi) || bo.Y == ssa.Value(phi)) {
+							inCond = true
+						}
+					}
+					// (b) the assigning block leaves the loop at once
+					leaves := false
+					for _, s := range assignedIn.Succs {
+						if !loop[s] {
+							leaves = true
+						}
+					}
+					r.decide(inCond || leaves, prefix+".first-match", name+":"+funcName(g)+":"+phi.Comment, p.pos(hd.Instrs[len(hd.Instrs)-1].Pos()), "the search stops at the first field with that json tag",
+						"the field search in "+funcName(g)+" keeps running after a match and overwrites the remembered index: the LAST field with the requested json tag is used, while the sibling accessor uses the first, so Get and Set disagree when a name is shadowed")
+				}
+			}
+		}
+		_ = n
+	}
 }
